@@ -148,6 +148,10 @@ let broken st =
   || List.exists (fun r -> int_of_z r.ar_r_kind = 2 && not (List.mem_assoc (string_of_ar r.ar_r_parent) st.hosts)) st.rules
 let genv st : ar_env = { ar_locals = []; ar_globals = st.globals; ar_this = AVObj []; ar_fn = ar_fn_impl }
 
+(* values of the navigation fields at evaluation: every generated host/service has check_command "arcc"
+   (an object), no check_period / event_command / command_endpoint (null) *)
+let navv (_ : ar_target) (n : ar_str) : ar_value = if string_of_ar n = "check_command" then AVObj [] else AVEmpty
+
 let index_str r =
   match ar_rule_index r with
   | AIRegular -> "R"
@@ -179,8 +183,8 @@ let op_api st a =
   let fv = if has a "fv" then bindings_of (str a "fv" "") else [] in
   let f = expr_of (str a "f" "") in
   let inv = inventory st and g = genv st in
-  let fast = ar_api_vars_ok fv && (if to_svc then ar_target_services (Some fv) f <> None else ar_target_hosts (Some fv) f <> None) in
-  emit (Printf.sprintf "api fast=%d plain=%s wrapped=%s" (if fast then 1 else 0) (keys_str (ar_api_fast g inv to_svc fv f)) (keys_str (ar_api_plain g inv to_svc fv (ar_wrap f))))
+  let fast = ar_api_vars_ok to_svc fv && (if to_svc then ar_target_services (Some fv) f <> None else ar_target_hosts (Some fv) f <> None) in
+  emit (Printf.sprintf "api fast=%d plain=%s wrapped=%s" (if fast then 1 else 0) (keys_str (ar_api_fast g navv inv to_svc fv f)) (keys_str (ar_api_plain g navv inv to_svc fv (ar_wrap f))))
 
 (* ---- oracle: re-reads the script, parses the implementation's observation lines ---- *)
 let parse_obj l =
@@ -270,7 +274,7 @@ let oracle_c16 script trace =
              let to_svc = str a "to" "host" = "svc" in
              let fv = if has a "fv" then bindings_of (str a "fv" "") else [] in
              let f = expr_of (str a "f" "") in
-             let code = int_of_z (ar_api_oracle (genv st) (inventory st) to_svc fv f (parse_keys (g "plain")) (parse_keys (g "wrapped"))) in
+             let code = int_of_z (ar_api_oracle (genv st) navv (inventory st) to_svc fv f (parse_keys (g "plain")) (parse_keys (g "wrapped"))) in
              let why = if ar_api_premises (inventory st) then "" else " premise=name-with-bang" in
              (match code with
               | 0 -> ()
